@@ -27,9 +27,12 @@
 (*     the digits of a listed one) and every non-digit chunk is unchanged. *)
 (*   Any hash, any offset inside the block and r = n are accepted.         *)
 (*   Don't-care (accepted whatever happens): a run that spells a listed    *)
-(*   number with leading zeros; lines with digit '.' digit (AS-dot         *)
-(*   notation) or with non-ASCII numeric characters; lists with entries    *)
-(*   that are not canonical decimals in 0..4294967295.                     *)
+(*   number with leading zeros; lines with non-ASCII numeric characters;   *)
+(*   lists with entries that are not canonical decimals in 0..4294967295.  *)
+(*   NOT a don't-care: a listed number next to punctuation is standalone   *)
+(*   whatever lies beyond the punctuation, digits included (1.65001,       *)
+(*   65001.1, 7:65001/9 - the quantifier says "adjacent to punctuation");  *)
+(*   AS-dot notation is not interpreted, each digit run stands for itself. *)
 (*                                                                         *)
 (* M (how netconan does it; used for TLC design checks only, see AsNumMC)  *)
 (*   r = h mod (B[i+1] - B[i]) + B[i];  one left-to-right pass trying the  *)
@@ -49,7 +52,6 @@ DecBounds   == << <<1,0>>, <<1,0,0>>, <<1,0,0,0>>, <<1,0,0,0,0>> >>   \* blocks 
 \* ---- character codes -------------------------------------------------------
 IsDig(c)     == c < 10
 IsForeign(c) == c >= 2000000
-Dot          == 146
 
 \* ---- numbers as digit sequences --------------------------------------------
 DigitSeq(s) == \A i \in 1..Len(s) : IsDig(s[i])
@@ -100,9 +102,7 @@ SegsFrom(line, i) ==
 \* maximal digit runs and maximal non-digit chunks, in order
 Segs(line) == SegsFrom(line, 1)
 
-OutOfScopeLine(line) ==
-  \/ \E i \in 1..Len(line) : IsForeign(line[i])
-  \/ \E i \in 1..(Len(line) - 2) : IsDig(line[i]) /\ line[i + 1] = Dot /\ IsDig(line[i + 2])
+OutOfScopeLine(line) == \E i \in 1..Len(line) : IsForeign(line[i])
 
 \* L: set of listed numbers; A, B: segments of the input and of the output
 RECURSIVE Judge(_, _, _, _, _)
@@ -148,7 +148,9 @@ BN(i) == ToNat(Bounds[i])
 
 \* named deviations (each is a realistic slip; "none" is the code as it stands)
 ReplDeviations == {"SizePlusOne", "BoundaryLe", "ModNextBegin", "NoBlockOffset"}
-ScanDeviations == {"NoLookbehind", "NoLookahead", "AtomicAlternation", "FirstMatchOnly"}
+ScanDeviations == {"NoLookbehind", "NoLookahead", "AtomicAlternation", "FirstMatchOnly", "DigitBeyondPunct"}
+\* DigitBeyondPunct: no match when the neighbour is ONE non-digit character with a digit beyond it
+\* ("1.65001", "65001.1" taken for parts of a dotted number)
 
 MRepl(d, n, h) ==
   LET k     == ToNat(n)
@@ -186,10 +188,13 @@ MMap(d, list, h) ==
 RECURSIVE MScan(_, _, _, _, _, _)
 MScan(d, list, line, p, rep, fired) ==
   IF p > Len(line) THEN << >>
-  ELSE LET before   == d = "NoLookbehind" \/ p = 1 \/ ~IsDig(line[p - 1])
+  ELSE LET before   == /\ d = "NoLookbehind" \/ p = 1 \/ ~IsDig(line[p - 1])
+                       /\ ~(d = "DigitBeyondPunct" /\ p > 2 /\ ~IsDig(line[p - 1]) /\ IsDig(line[p - 2]))
            End(k)   == p + Len(list[k]) - 1
            Pref(k)  == End(k) <= Len(line) /\ SubSeq(line, p, End(k)) = list[k]
-           After(k) == d = "NoLookahead" \/ End(k) = Len(line) \/ ~IsDig(line[End(k) + 1])
+           After(k) == /\ d = "NoLookahead" \/ End(k) = Len(line) \/ ~IsDig(line[End(k) + 1])
+                       /\ ~(d = "DigitBeyondPunct" /\ End(k) + 2 <= Len(line)
+                            /\ ~IsDig(line[End(k) + 1]) /\ IsDig(line[End(k) + 2]))
            pm       == {k \in 1..Len(list) : Pref(k)}
            hits     == IF d = "AtomicAlternation"
                        THEN (IF pm # {} /\ After(Min(pm)) THEN {Min(pm)} ELSE {})
